@@ -129,5 +129,5 @@ func testFormat(t *testing.T) {
 	if h.C.ReplayIn != "" {
 		fmtP.Run = runCall
 	}
-	h.RunProp(t, fmtP, h.N(15000, 100000))
+	h.RunProp(t, fmtP, h.N(15000, 200000))
 }
